@@ -59,11 +59,12 @@ type c29World struct {
 	finalData string
 	idleSince time.Duration
 	// subs variant
-	fw   *fsub.World
-	v    *fsub.FNode
-	h    *fsub.Script
-	recs []*c29Sub
-	n    int
+	fw         *fsub.World
+	v          *fsub.FNode
+	h          *fsub.Script
+	recs       []*c29Sub
+	n          int
+	reconnects int
 }
 
 type c29Sub struct {
@@ -87,7 +88,7 @@ func init() {
 		Cfg:        dsim.Config{MaxChaosSteps: 140, MaxStableSteps: 20000, Horizon: 20 * time.Second},
 		Real:       []string{"pubsub/controller.Controller (link tracking, trackLink opener choice, HandleMountedStream for the pubsub protocol)", "pubsub/floodsub.FloodSub (subscriptions, handlers, Release, unsubscribe announcements)", "transport/controller.Controller, controllerbus, peer controller (links variant)"},
 		Stub:       []string{"simlink transports between the two nodes (links variant)", "scripted peer observing subscription announcements (subs variant)", "go-cache janitor not started"},
-		FaultKinds: []string{"fault:link-fail", "fault:link-reestablished-same-uuid", "fault:release-racing-delivery", "fault:handler-removed-racing-delivery", "fault:chunking", "fault:clock-jump"},
+		FaultKinds: []string{"fault:link-fail", "fault:link-reestablished-same-uuid", "fault:release-racing-delivery", "fault:handler-removed-racing-delivery", "fault:peer-reconnect-same-tuple", "fault:chunking", "fault:clock-jump"},
 	})
 }
 
@@ -260,7 +261,7 @@ func (w *c29World) setupSubs() {
 	w.v = w.fw.AddNode("V")
 	w.h = w.fw.ConnectScript(w.v, "H", 0)
 	w.h.WantChannels(true, "c1", "c2")
-	s.ArmFraction([]int{100, 100, 50, 0}[t.Draw(4, "arm-pct")], []string{"floodsub/deliver", "floodsub/release", "floodsub/handle-valid", "floodsub/handle-publish"})
+	s.ArmFraction([]int{100, 100, 50, 0}[t.Draw(4, "arm-pct")], []string{"floodsub/deliver", "floodsub/release", "floodsub/handle-valid", "floodsub/handle-publish", "harness/stream-close"})
 }
 
 func (w *c29World) actionsSubs(s *dsim.Sim, add func(dsim.Action)) {
@@ -332,6 +333,18 @@ func (w *c29World) actionsSubs(s *dsim.Sim, add func(dsim.Action)) {
 				}})
 			}
 		}
+	}
+	if w.reconnects < 2 {
+		add(dsim.Action{Name: "5flt:peer-reconnects-same-tuple", Weight: 2, Fault: true, Fire: func() {
+			// the peer re-opens its stream under the SAME (peer, link) tuple: the router
+			// cancels the old session and starts a new one; announcements now go to the new one
+			w.ops++
+			w.reconnects++
+			s.Count("fault:peer-reconnect-same-tuple")
+			old := w.h
+			w.h = w.fw.ConnectScript(w.v, "H", old.End.C.LinkID)
+			w.h.WantChannels(true, "c1", "c2")
+		}})
 	}
 	add(dsim.Action{Name: "3op:traffic", Weight: 6, Fire: func() {
 		w.ops++
